@@ -90,7 +90,7 @@ func TestTyped(t *testing.T) {
 			p := reflect.New(typ)
 			p.Elem().Set(gv)
 			checkEncoders(tl, sig+":"+l.N, p.Interface(), in, detail) // through the pointer
-			if l.N == "u64" {
+			if l.N == "u64" || l.N == "uint" {
 				checkUintHelpers(tl, sig, gv.Uint(), in, detail)
 			}
 			// ... and by value, unless the type has a pointer-receiver EncodeRLP (then the package
